@@ -10,7 +10,7 @@ import shutil
 import struct
 from typing import Any, Dict, List
 
-from .. import tlc, traces, naming, cue
+from .. import tlc, traces, naming, cue, listing
 from ..core import Check
 from .. import repo
 from ..readers.lsparse import parse_tree, as_list
@@ -250,7 +250,9 @@ def run(chk: Check):
                 "rate incl. 0, counts, markers, tuning, loop type, 8-entry loop table), AKAI programs (all header fields, 1-5 keygroups at "
                 "permuted, gapped addresses chained by next-keygroup address, 4 zones of which 0-4 non-empty), Roland samples (mode, frequency "
                 "code, loop mode, tunes, key, five 32-bit loop points), CDDA tracks (bin lengths k*2352+r); stored and printed values of each "
-                "item are one trace line judged by HeadersTrace.tla; distinct = item")
+                "item are one trace line judged by HeadersTrace.tla; distinct = item; the printer (info.py InfoTree) is modelled in Listing.tla "
+                "(depth-first flattening, line cutting with a mark, row cap with an announcement) and every item of its universe is "
+                "rendered by the real printer and compared line by line")
     events: List[Dict[str, Any]] = []
     over_cap = 0
     work = tlc.scratch_dir("c20_")
@@ -326,6 +328,8 @@ def run(chk: Check):
     else:
         chk.extra["binding_selftest"] = "skipped: no accepted AKAI sample line in this run"
     chk.extra["programs_over_300_line_cap_skipped"] = over_cap
+    # the printer itself (spec/Listing.tla): nothing of a leaf's description is lost, reordered, cut or capped silently
+    listing.check(chk, 6000 if thorough else 700)
     chk.sample({"id": events[0]["id"], "stored": {k: events[0]["stored"][k] for k in ("sampling_rate", "samples_cnt", "loop_type")},
                 "printed": {k: events[0]["printed"][k] for k in ("sample_rate", "samples_cnt", "loop_type")}})
     chk.assumptions += ["values < 2^31; 32-bit Roland loop points cross the JSON boundary as 16-bit limbs", "printed floats (cents) are "
